@@ -239,7 +239,9 @@ class C11(Prop):
         "bisection_total_documented_status", "bisection_keeps_root_bracketed", "newton_root_total_documented_status", "bisection_converges", "bisection_negative_root_regression",
         "bracket_postcondition", "brent_descends_from_its_start", "brent_nonfinite_interval_exits", "cg_value_is_objective_at_result", "cg_is_not_a_descent_method",
         # round 4
-        "cg_statistics_are_of_the_proved_run", "cg_terminates_within_max_iterations", "cg_descends_unless_brent_loses_the_bracket_point")]
+        "cg_statistics_are_of_the_proved_run", "cg_terminates_within_max_iterations", "cg_descends_unless_brent_loses_the_bracket_point",
+        "weibull_objective_is_neg_loglik", "weibull_loglik_derivatives", "weibull_fit_optimality_certificate", "weibull_stationary_is_global_maximiser_partial",
+        "weibull_sxp_fit_parameters_positive", "gamma_rate_is_maximiser")]
     claimed = True
     technique = ("Lean 4 proof over an executable line-by-line model (numeric class: Float for the bit-exact differential run, Q/R for the theorems) "
                  "+ bit-exact correspondence with the ASan/UBSan-built C code + exact-rational / log-likelihood property monitors")
@@ -465,6 +467,23 @@ class C11(Prop):
             "cgd fam=needle p=%s,%s,%s x0=%s" % (d(1), d(0), d(1), d(0))]})
         # regression (repaired in 6da6a89): max_iterations = 0 returned an uninitialised *opt_fx
         c.append({"name": "cgd-maxiter0-uninitialised-fx", "sticky": 1, "meta": {"mod": "solver"}, "ops": ['cgd fam=rosen p=3ff0000000000000 x0=0000000000000000,0000000000000000 cfg=create maxit=0']})
+        # regressions 7d2bcba (SetExpectedTail: base_val outside the binned range wrote outside expect[]) and e843eeb (PlotSurvival on an empty
+        # histogram read obs[-1]); Goodness / Plot on the same states
+        u = "cdf=unif c=%s,%s" % (d(-100.0), d(0.5))
+        c.append({"name": "regress-expectedtail-base-outside-bins", "sticky": 1, "ops": [
+            "hnew full=0 bmin=%s bmax=%s w=%s" % (d(-100.0), d(0.1), d(1.0)), "hadd xs=" + ",".join(d(x) for x in (-3.2, -2.5, -2.5, -0.7, 0.05)),
+            "hexptail %s base=%s pmass=%s" % (u, d(2.0), d(1.0)), "hexpdump", "hgood nfitted=0", "hplot", "hplotsurv",
+            "hexptail %s base=%s pmass=%s" % (u, d(-250.0), d(0.5)), "hexpdump", "hgood nfitted=0", "hplot", "hplotsurv",
+            "hexptail %s base=%s pmass=%s" % (u, d(2147483646.5 - 100.0), d(0.5)), "hexpdump",
+            "hexptail %s base=%s pmass=%s" % (u, d(float("nan")), d(0.5)), "hexpdump", "hdump"]})
+        c.append({"name": "regress-plots-empty-histogram", "sticky": 1, "ops": [
+            "hnew full=0 bmin=%s bmax=%s w=%s" % (d(0.0), d(10.0), d(1.0)), "hplotsurv", "hplot", "hgood nfitted=0", "hexpdump",
+            "hexpect " + u, "hexpdump", "hplotsurv", "hplot", "hgood nfitted=0", "hexptail %s base=%s pmass=%s" % (u, d(3.0), d(0.5)), "hexpdump", "hplotsurv", "hplot", "hgood nfitted=1"]})
+        g = grid("exp", 400, 0.0, 0.5, 1.0)
+        c.append({"name": "goodness-exp-grid", "sticky": 1, "ops": [
+            "hnew full=1 bmin=%s bmax=%s w=%s" % (d(0.0), d(20.0), d(0.25)), "hadd xs=" + ",".join(d(x) for x in g),
+            "hexpect cdf=exp c=%s,%s" % (d(0.0), d(0.5)), "hexpdump", "hgood nfitted=0", "hgood nfitted=2", "hplot", "hplotsurv",
+            "hsettail phi=" + d(2.0), "hexptail cdf=exp c=%s,%s base=%s pmass=%s" % (d(0.0), d(0.5), d(2.0), d(0.3678794411714423)), "hexpdump", "hgood nfitted=1", "hplot", "hplotsurv"]})
         xs = [0.5, 1.0, 1.5, 3.2, 2.5, 7, 7]
         c.append({"name": "fit-basic", "sticky": 1, "ops": ["data xs=" + ",".join(d(x) for x in xs)] + self.fit_ops(xs, None)})
         return c
@@ -592,6 +611,33 @@ class C11(Prop):
             elif r < 0.94: ops.append("hdata")
             else: ops.append("hrank r=%d" % rng.choice([1, max(1, len(vals))]))
             ops.append("hdump")
+        if rng.random() < 0.6:          # ---- expected counts, goodness of fit, plot tables
+            lo_v, hi_v = (sv[0], sv[-1]) if sv else (bmin, bmax)
+            mean_v = sum(sv) / len(sv) if sv else (bmin + bmax) / 2
+            span = max(hi_v - lo_v, w)
+            def some_cdf():
+                k = rng.choice(["unif", "unif", "exp", "gumbel"])
+                if k == "unif": c = [lo_v - rng.choice([0.0, 0.5, 3.0]) * w, hi_v + rng.choice([0.0, 0.5, 3.0]) * w] if rng.random() < 0.8 else [lo_v + span / 4, hi_v - span / 4]
+                elif k == "exp": c = [rng.choice([lo_v, lo_v - w, mean_v]), 1.0 / max(mean_v - lo_v, w / 4)]
+                else: c = [mean_v, 2.0 / span]
+                if k == "unif" and exact: c = [bmin + round((c[0] - bmin) / unit) * unit, bmin + round((c[1] - bmin) / unit) * unit + unit]
+                return "cdf=%s c=%s" % (k, ",".join(d(v) for v in c))
+            def some_base():
+                return rng.choice([some_phi(), some_phi(), lo_v - w, mean_v, hi_v, hi_v + 3 * w,
+                                   bmin - 1e6 * w, bmax + 1e6 * w,                       # far below / above every allocated bin (7d2bcba)
+                                   bmin + (lo_reach * 5 - 40) * w, bmin + (hi_reach * 5 + 40) * w])
+            if rng.random() < 0.3: ops.append("hexpdump")
+            for _ in range(rng.choice([1, 1, 2])):
+                if rng.random() < 0.5: ops.append("hexpect " + some_cdf())
+                else: ops.append("hexptail %s base=%s pmass=%s" % (some_cdf(), d(some_base()), d(rng.choice([1.0, 0.5, 0.1, 0.01, rng.random()]))))
+            if rng.random() < 0.15:       # a refused base value AFTER expected counts exist (they must stay as they are)
+                ops.append("hexptail %s base=%s pmass=%s" % (some_cdf(), d(rng.choice([float("nan"), float("inf"), 1e300, -3e9 * w + bmin])), d(0.5)))
+            ops.append("hexpdump")
+            ops.append("hgood nfitted=%d" % rng.choice([0, 0, 1, 2, 5]))
+            ops.append("hplot"); ops.append("hplotsurv")
+            if rng.random() < 0.3: ops.append("hdump")
+        elif rng.random() < 0.3:
+            ops += ["hgood nfitted=0", "hplot", "hplotsurv"]      # no expected counts: eslEINVAL, one data set
         ops.append("hexpfit")
         if rng.random() < 0.3: ops.append("hweifit")      # modelled: any histogram state, incl. censored / clamped cmin
         if rng.random() < 0.3: ops.append("hgamfit")
@@ -1159,6 +1205,36 @@ class C11(Prop):
                 else:
                     if l != "ok": return F("DeclareCensoring returned %r" % l)
                     done = True
+            elif name in ("hexpect", "hexptail"):
+                if l.startswith("ok"): done = True
+                if name == "hexpect" and l != "ok": return F("SetExpect returned %r" % l)
+                if name == "hexptail":
+                    base = fbits(a["base"])
+                    if l not in ("ok", "erange"): return F("SetExpectedTail returned the undocumented status %r" % l)
+                    if not math.isfinite(base) and l != "erange": return F("SetExpectedTail(base_val=%r) returned %r" % (base, l))
+            elif name == "hexpdump":
+                r = kv(l)
+                if l.startswith("ok nb="):
+                    if not (-1 <= int(r["emin"]) <= int(r["nb"])): return F("emin = %s outside -1..nb = %s: consumers index expect[emin..]" % (r["emin"], r["nb"]))
+            elif name == "hgood":
+                st = l.split()[0]; r = kv(l)
+                if st not in ("ok", "enoresult", "einval", "enohalt", "erange"): return F("Goodness returned the undocumented status %r" % st)
+                if st == "ok":
+                    gp, xp = fbits(r["Gp"]), fbits(r["X2p"])
+                    for nm, pv in (("G", gp), ("X2", xp)):
+                        if not math.isnan(pv) and not (-1e-9 <= pv <= 1 + 1e-9): return F("Goodness: %s-test p-value %r outside [0,1]" % (nm, pv))
+                    if int(r["nbins"]) < 2: return F("Goodness: eslOK with %s bins (no degree of freedom)" % r["nbins"])
+                    if int(r["nbins"]) > max(1, len(vals)): return F("Goodness: %s re-bins for %d values (each re-bin holds at least one)" % (r["nbins"], len(vals)))
+                elif st != "einval" and (int(r["nbins"]), fbits(r["G"]), fbits(r["Gp"]), fbits(r["X2"]), fbits(r["X2p"])) != (0, 0.0, 1.0, 0.0, 1.0):
+                    return F("Goodness: failure status %s without the documented (0, 0, 1, 0, 1) answers" % st)
+            elif name == "hplot":
+                if not l.startswith("ok"): return F("Plot failed: %r" % l)
+                r = kv(l)
+                if int(r["sum"]) != len(vals): return F("Plot: the observed data set sums to %s, %d values were accepted" % (r["sum"], len(vals)))
+            elif name == "hplotsurv":
+                if not l.startswith("ok"): return F("PlotSurvival failed: %r" % l)
+                r = kv(l)
+                if r["cum"] != "-" and int(r["cum"]) != len(vals): return F("PlotSurvival: the last cumulative count is %s, %d values were accepted" % (r["cum"], len(vals)))
             elif name in ("hsettail", "hsettailmass"):
                 if l.startswith("ok"): done = True
             elif name == "hround":
